@@ -336,7 +336,7 @@ def run_shape(h, cfile, shape, tier):
     elif unknown and not fails:
         res['verdict'] = 'INCONCLUSIVE'; res['why'] = 'UNKNOWN properties without a failing one: ' + unknown[0]['desc']
     elif 'unwind' in kinds or 'model' in kinds:
-        res['verdict'] = 'INCONCLUSIVE'; res['why'] = '; '.join(p['desc'] for p in kinds.get('unwind', []) + kinds.get('model', []))[:400]
+        res['verdict'] = 'INCONCLUSIVE'; res['why'] = '; '.join('%s %s' % (re.sub(r'F__Z\w{40,}', lambda m: m.group(0)[:30] + '..', p['id']), p['desc']) for p in kinds.get('unwind', []) + kinds.get('model', []))[:400]
     elif 'violation' in kinds:
         res['verdict'] = 'CEX'
     elif not res['witness_ok']:
